@@ -277,16 +277,21 @@ class Builder:
         # a subscript can raise KeyError/IndexError when it is read or deleted (or is the target of an augmented
         # assignment); a plain store `d[k] = v` cannot
         aug_targets = {id(x.target) for x in ast.walk(st) if isinstance(x, ast.AugAssign)}
-        has_sub = any(isinstance(x, ast.Subscript) and (not isinstance(x.ctx, ast.Store) or id(x) in aug_targets) for x in ast.walk(st))
+        subs = [x for x in ast.walk(st) if isinstance(x, ast.Subscript) and (not isinstance(x.ctx, ast.Store) or id(x) in aug_targets)]
+        has_sub = bool(subs)
+        # `pool[0]` -- a local indexed by an integer literal -- reads an element of a sequence: it cannot raise KeyError
+        has_key_sub = any(not (isinstance(x.value, ast.Name) and isinstance(x.slice, ast.Constant) and isinstance(x.slice.value, int)
+                               and not isinstance(x.slice.value, bool)) for x in subs)
         has_call = any(isinstance(x, ast.Call) for x in ast.walk(st))
         for names, h in ctx.handlers:
             if names is None:            # catch-all
                 if has_sub or has_call:
                     self.g.edge(n, h, 'exc')
                 break
-            if has_sub and (set(names) & SUBSCRIPT_EXC):
-                self.g.edge(n, h, 'exc')
-                break
+            if set(names) & SUBSCRIPT_EXC:
+                if has_key_sub or (has_sub and set(names) & {'IndexError', 'LookupError'}):
+                    self.g.edge(n, h, 'exc')
+                    break
 
     def _stmt(self, st, frontier, frame, ctx):
         g = self.g
@@ -1125,6 +1130,58 @@ def _owner_class(P, fn):
     return None
 
 
+
+def _inline_self_forwarders(P, c, body):
+    """statements `self.h(a, ...)` of a method body of class c, where h is a method of c whose whole body is one call statement
+    (`def _initialize_asset(self, asset): asset.initialize(self._env)`), are replaced by that call with the parameters substituted: the
+    expansion of a foreign tail call binds `self` to another expression, after which such a self-call could no longer be followed"""
+    import copy
+
+    def simple(e):
+        return isinstance(e, (ast.Name, ast.Constant)) or (isinstance(e, ast.Attribute) and simple(e.value))
+
+    def forward(call):
+        if not (isinstance(call.func, ast.Attribute) and isinstance(call.func.value, ast.Name) and call.func.value.id == 'self'):
+            return None
+        hit = P.lookup(c, call.func.attr)
+        if hit is None or hit[1] != 'method':
+            return None
+        fd = hit[2]
+        if fd.decorator_list or fd.args.vararg or fd.args.kwarg or fd.args.kwonlyargs or fd.args.defaults or call.keywords:
+            return None
+        hb = [s_ for s_ in fd.body if not (isinstance(s_, ast.Expr) and isinstance(s_.value, ast.Constant))]
+        if len(hb) != 1 or not isinstance(hb[0], ast.Expr) or not isinstance(hb[0].value, ast.Call):
+            return None
+        ps = [a.arg for a in fd.args.args[1:]]
+        if len(ps) != len(call.args) or not all(simple(a) for a in call.args):
+            return None
+        if any(isinstance(x, ast.Name) and isinstance(x.ctx, ast.Store) for x in ast.walk(hb[0])) or any(isinstance(x, (ast.Lambda, ast.Await, ast.Yield)) for x in ast.walk(hb[0])):
+            return None
+        bind = dict(zip(ps, call.args))
+
+        class Put(ast.NodeTransformer):
+            def visit_Name(self_, x):
+                if x.id in bind and isinstance(x.ctx, ast.Load):
+                    return ast.copy_location(copy.deepcopy(bind[x.id]), x)
+                return x
+        return Put().visit(copy.deepcopy(hb[0].value))
+
+    class Walk(ast.NodeTransformer):
+        def visit_Expr(self_, st):
+            if isinstance(st.value, ast.Call):
+                r = forward(st.value)
+                if r is not None:
+                    return ast.fix_missing_locations(ast.copy_location(ast.Expr(value=ast.copy_location(r, st.value)), st))
+            return st
+
+        def visit_FunctionDef(self_, x):
+            return x
+
+        def visit_Lambda(self_, x):
+            return x
+    return [Walk().visit(copy.deepcopy(s_)) for s_ in body]
+
+
 def inline_foreign_tail_calls(P, fn, stmts):
     """`return x.m(a)` where x is a local / parameter other than self and m is a method only one class of the
     package (in the same module) defines: replaced by the body of m with self := x and the parameters := the (call-free) arguments, the
@@ -1166,6 +1223,7 @@ def inline_foreign_tail_calls(P, fn, stmts):
         if set(bind) != set(ps) or not all(simple(v) for v in bind.values()):
             return None
         body = [s_ for s_ in fd.body if not (isinstance(s_, ast.Expr) and isinstance(s_.value, ast.Constant))]
+        body = _inline_self_forwarders(P, c, body)
         stored = {x.id for s_ in body for x in ast.walk(s_) if isinstance(x, ast.Name) and isinstance(x.ctx, (ast.Store, ast.Del))}
         if stored & (set(ps) | {'self'}):
             return None
@@ -1637,12 +1695,237 @@ def norm_func(P, fn):
     return f2
 
 
+
+
+def _first_index_helper(fd):
+    """`def h(self, start)` that answers the first index >= start of `self.<L>` whose element satisfies a condition, else None -- written
+    as next(generator over range(start, len(L))), as a for over that range, or as a for over enumerate(L[start:], start).
+    Returns (text of L, index variable, condition AST in terms of L[index]) or None."""
+    import copy
+    ps = [a.arg for a in fd.args.args]
+    if len(ps) != 2 or ps[0] != 'self' or fd.args.vararg or fd.args.kwarg or fd.decorator_list:
+        return None
+    start = ps[1]
+    body = [x for x in fd.body if not (isinstance(x, ast.Expr) and isinstance(x.value, ast.Constant))]
+
+    def range_of(e):
+        if isinstance(e, ast.Call) and isinstance(e.func, ast.Name) and e.func.id == 'range' and len(e.args) == 2 and not e.keywords \
+                and isinstance(e.args[0], ast.Name) and e.args[0].id == start and isinstance(e.args[1], ast.Call) and isinstance(e.args[1].func, ast.Name) \
+                and e.args[1].func.id == 'len' and len(e.args[1].args) == 1:
+            return e.args[1].args[0]
+        return None
+
+    def enum_of(e):
+        if isinstance(e, ast.Call) and isinstance(e.func, ast.Name) and e.func.id == 'enumerate' and len(e.args) == 2 and not e.keywords \
+                and isinstance(e.args[1], ast.Name) and e.args[1].id == start and isinstance(e.args[0], ast.Subscript) and isinstance(e.args[0].slice, ast.Slice) \
+                and isinstance(e.args[0].slice.lower, ast.Name) and e.args[0].slice.lower.id == start and e.args[0].slice.upper is None and e.args[0].slice.step is None:
+            return e.args[0].value
+        return None
+
+    def destructure(target, base):
+        """{name: expression} for a loop target bound to `base`"""
+        if isinstance(target, ast.Name):
+            return {target.id: base}
+        if isinstance(target, (ast.Tuple, ast.List)):
+            out = {}
+            for k, el in enumerate(target.elts):
+                if isinstance(el, ast.Starred):
+                    return None
+                sub = destructure(el, ast.Subscript(value=copy.deepcopy(base), slice=ast.Constant(k), ctx=ast.Load()))
+                if sub is None:
+                    return None
+                out.update(sub)
+            return out
+        return None
+
+    def put(e, bind):
+        class Put(ast.NodeTransformer):
+            def visit_Name(self_, x):
+                if x.id in bind and isinstance(x.ctx, ast.Load):
+                    return copy.deepcopy(bind[x.id])
+                return x
+        return ast.fix_missing_locations(Put().visit(copy.deepcopy(e)))
+    # form A
+    if len(body) == 1 and isinstance(body[0], ast.Return) and isinstance(body[0].value, ast.Call) and isinstance(body[0].value.func, ast.Name) \
+            and body[0].value.func.id == 'next' and len(body[0].value.args) == 2 and isinstance(body[0].value.args[1], ast.Constant) and body[0].value.args[1].value is None \
+            and isinstance(body[0].value.args[0], ast.GeneratorExp) and len(body[0].value.args[0].generators) == 1:
+        ge = body[0].value.args[0]
+        gen = ge.generators[0]
+        if isinstance(gen.target, ast.Name) and isinstance(ge.elt, ast.Name) and ge.elt.id == gen.target.id and len(gen.ifs) == 1 and not gen.is_async:
+            L = range_of(gen.iter)
+            if L is not None:
+                return ast.unparse(L), gen.target.id, gen.ifs[0]
+        return None
+    # forms B and C
+    if len(body) == 2 and isinstance(body[0], ast.For) and not body[0].orelse and isinstance(body[1], ast.Return) \
+            and (body[1].value is None or (isinstance(body[1].value, ast.Constant) and body[1].value.value is None)):
+        loop = body[0]
+        if len(loop.body) == 1 and isinstance(loop.body[0], ast.If) and not loop.body[0].orelse and len(loop.body[0].body) == 1 \
+                and isinstance(loop.body[0].body[0], ast.Return) and isinstance(loop.body[0].body[0].value, ast.Name):
+            idx = loop.body[0].body[0].value.id
+            L = range_of(loop.iter)
+            if L is not None and isinstance(loop.target, ast.Name) and loop.target.id == idx:
+                return ast.unparse(L), idx, loop.body[0].test
+            L = enum_of(loop.iter)
+            if L is not None and isinstance(loop.target, ast.Tuple) and len(loop.target.elts) == 2 and isinstance(loop.target.elts[0], ast.Name) \
+                    and loop.target.elts[0].id == idx:
+                bind = destructure(loop.target.elts[1], ast.Subscript(value=copy.deepcopy(L), slice=ast.Name(id=idx, ctx=ast.Load()), ctx=ast.Load()))
+                if bind is not None and idx not in bind:
+                    return ast.unparse(L), idx, put(loop.body[0].test, bind)
+    return None
+
+
+def search_scan_to_index_scan(P, fn, stmts):
+    """`p = self.h(0); while p is not None: BODY; p = self.h(p)` with h = "first index >= start whose element satisfies C" (above) is the index
+    scan `p = 0; while p < len(L): if C(L[p]): BODY else: p += 1` -- the same elements are tested in the same order, BODY runs for the same
+    ones, and the position is kept after BODY exactly as the search restarting at p keeps it."""
+    import copy
+    owner = _owner_class(P, fn)
+    if owner is None:
+        return stmts
+
+    def helper_call(e, arg_pred):
+        if isinstance(e, ast.Call) and isinstance(e.func, ast.Attribute) and isinstance(e.func.value, ast.Name) and e.func.value.id == 'self' \
+                and len(e.args) == 1 and not e.keywords and arg_pred(e.args[0]):
+            hit = P.lookup(owner, e.func.attr)
+            if hit and hit[1] == 'method':
+                return _first_index_helper(hit[2])
+        return None
+    out = list(stmts)
+    changed = False
+    for k in range(len(out) - 1):
+        st, nxt = out[k], out[k + 1]
+        if not (isinstance(st, ast.Assign) and len(st.targets) == 1 and isinstance(st.targets[0], ast.Name) and isinstance(nxt, ast.While) and not nxt.orelse and nxt.body):
+            continue
+        pv = st.targets[0].id
+        h0 = helper_call(st.value, lambda a: isinstance(a, ast.Constant) and a.value == 0)
+        t = nxt.test
+        not_none = isinstance(t, ast.Compare) and len(t.ops) == 1 and isinstance(t.ops[0], (ast.IsNot, ast.NotEq)) and isinstance(t.left, ast.Name) and t.left.id == pv \
+            and isinstance(t.comparators[0], ast.Constant) and t.comparators[0].value is None
+        last = nxt.body[-1]
+        h1 = helper_call(last.value, lambda a: isinstance(a, ast.Name) and a.id == pv) if isinstance(last, ast.Assign) and len(last.targets) == 1 \
+            and isinstance(last.targets[0], ast.Name) and last.targets[0].id == pv else None
+        if h0 is None or h1 is None or not not_none or ast.unparse(st.value.func) != ast.unparse(last.value.func):
+            continue
+        body = nxt.body[:-1]
+        if any(isinstance(x, (ast.Continue, ast.Break)) or (isinstance(x, ast.Name) and x.id == pv and isinstance(x.ctx, ast.Store)) for b in body for x in ast.walk(b)):
+            continue
+        Ltext, idx, cond = h0
+
+        class Put(ast.NodeTransformer):
+            def visit_Name(self_, x):
+                if x.id == idx and isinstance(x.ctx, ast.Load):
+                    return ast.copy_location(ast.Name(id=pv, ctx=ast.Load()), x)
+                return x
+        cond2 = Put().visit(copy.deepcopy(cond))
+        L = ast.parse(Ltext, mode='eval').body
+        init = ast.copy_location(ast.Assign(targets=[ast.Name(id=pv, ctx=ast.Store())], value=ast.Constant(0)), st)
+        inc = ast.AugAssign(target=ast.Name(id=pv, ctx=ast.Store()), op=ast.Add(), value=ast.Constant(1))
+        branch = ast.If(test=cond2, body=[copy.deepcopy(b) for b in body], orelse=[inc])
+        loop = ast.While(test=ast.Compare(left=ast.Name(id=pv, ctx=ast.Load()), ops=[ast.Lt()],
+                                          comparators=[ast.Call(func=ast.Name(id='len', ctx=ast.Load()), args=[L], keywords=[])]),
+                         body=[branch], orelse=[])
+        for n_ in (branch, inc, loop):
+            ast.copy_location(n_, nxt)
+        for x in ast.walk(loop):
+            if not hasattr(x, 'lineno'):
+                ast.copy_location(x, nxt)
+        ast.fix_missing_locations(init)
+        ast.fix_missing_locations(loop)
+        out[k], out[k + 1] = init, loop
+        changed = True
+    return out if changed else stmts
+
+
+def index_while_to_for(fn, stmts):
+    """`i = 0; while i < len(L): ... L[i] ...; i += 1` is the loop `for x in L: ... x ...`: a list iterator is exactly such an index walk (it
+    re-reads the length at every step, so elements appended during the walk are visited by both).  Rewritten when the index is used for
+    nothing but `L[i]`, is advanced by one as the last statement of the body only, and is not read after the loop."""
+    import copy
+    MUT = {'append', 'insert', 'extend', 'remove', 'pop', 'clear', 'sort', 'reverse'}
+
+    def rewrite(block, rest_of_fn_reads):
+        out = []
+        k = 0
+        changed = False
+        while k < len(block):
+            st = block[k]
+            nxt = block[k + 1] if k + 1 < len(block) else None
+            done = False
+            if isinstance(st, ast.Assign) and len(st.targets) == 1 and isinstance(st.targets[0], ast.Name) and isinstance(st.value, ast.Constant) and st.value.value == 0 \
+                    and type(st.value.value) is int and isinstance(nxt, ast.While) and not nxt.orelse:
+                i = st.targets[0].id
+                t = nxt.test
+                if isinstance(t, ast.Compare) and len(t.ops) == 1 and isinstance(t.ops[0], ast.Lt) and isinstance(t.left, ast.Name) and t.left.id == i \
+                        and isinstance(t.comparators[0], ast.Call) and isinstance(t.comparators[0].func, ast.Name) and t.comparators[0].func.id == 'len' \
+                        and len(t.comparators[0].args) == 1 and nxt.body:
+                    L = t.comparators[0].args[0]
+                    Lt = ast.unparse(L)
+                    last = nxt.body[-1]
+                    inc = (isinstance(last, ast.AugAssign) and isinstance(last.target, ast.Name) and last.target.id == i and isinstance(last.op, ast.Add)
+                           and isinstance(last.value, ast.Constant) and last.value.value == 1) or \
+                          (isinstance(last, ast.Assign) and len(last.targets) == 1 and isinstance(last.targets[0], ast.Name) and last.targets[0].id == i
+                           and ast.unparse(last.value) in (f'{i} + 1', f'1 + {i}'))
+                    body = nxt.body[:-1]
+                    simpleL = isinstance(L, ast.Name) or (isinstance(L, ast.Attribute) and isinstance(L.value, ast.Name))
+                    if inc and body and simpleL:
+                        loads, other_uses, mutated, bad = 0, 0, False, False
+                        for b in body:
+                            for x in ast.walk(b):
+                                if isinstance(x, ast.Subscript) and isinstance(x.ctx, ast.Load) and ast.unparse(x.value) == Lt and isinstance(x.slice, ast.Name) and x.slice.id == i:
+                                    loads += 1
+                                elif isinstance(x, ast.Name) and x.id == i:
+                                    other_uses += 1
+                                elif isinstance(x, ast.Continue) or isinstance(x, (ast.FunctionDef, ast.Lambda)):
+                                    bad = True
+                                elif isinstance(x, ast.Call) and isinstance(x.func, ast.Attribute) and x.func.attr in MUT and ast.unparse(x.func.value) == Lt:
+                                    mutated = True
+                                elif isinstance(x, (ast.Subscript, ast.Name, ast.Attribute)) and isinstance(getattr(x, 'ctx', None), (ast.Store, ast.Del)) \
+                                        and ast.unparse(x.value if isinstance(x, ast.Subscript) else x) == Lt:
+                                    mutated = True
+                        # every Name occurrence of i inside an L[i] was also counted as an "other use": they must balance
+                        reads_after = any(isinstance(x, ast.Name) and x.id == i for r in block[k + 2:] + rest_of_fn_reads for x in ast.walk(r))
+                        if not bad and loads >= 1 and other_uses == loads and not (mutated and loads > 1) and not reads_after:
+                            var = f'__elem_{i}'
+
+                            class Put(ast.NodeTransformer):
+                                def visit_Subscript(self_, x):
+                                    self_.generic_visit(x)
+                                    if isinstance(x.ctx, ast.Load) and ast.unparse(x.value) == Lt and isinstance(x.slice, ast.Name) and x.slice.id == i:
+                                        return ast.copy_location(ast.Name(id=var, ctx=ast.Load()), x)
+                                    return x
+                            new_body = [ast.fix_missing_locations(Put().visit(copy.deepcopy(b))) for b in body]
+                            loop = ast.For(target=ast.Name(id=var, ctx=ast.Store()), iter=copy.deepcopy(L), body=new_body, orelse=[], type_comment=None)
+                            ast.copy_location(loop, nxt)
+                            ast.fix_missing_locations(loop)
+                            out.append(loop)
+                            k += 2
+                            changed = True
+                            done = True
+            if not done:
+                st2 = st
+                for fld in ('body', 'orelse', 'finalbody'):
+                    sub = getattr(st, fld, None)
+                    if isinstance(sub, list) and sub and isinstance(sub[0], ast.stmt) and not isinstance(st, (ast.FunctionDef, ast.ClassDef)):
+                        r, ch = rewrite(sub, block[k + 1:] + rest_of_fn_reads)
+                        if ch:
+                            if st2 is st:
+                                st2 = copy.copy(st)
+                            setattr(st2, fld, r)
+                            changed = True
+                out.append(st2)
+                k += 1
+        return out, changed
+    res, ch = rewrite(list(stmts), [])
+    return res if ch else stmts
+
+
 def prepass(P, fn):
     """the behaviour-preserving normalisations applied to a function body before its graph is built (cached on the node)"""
     cached = fn.__dict__.get('_sa_prepass')
     if cached is not None and cached[0] is fn.body and cached[1] is P:
         return cached[2]
-    res = inline_assigned_predicates(P, fn, inline_pure_predicate_locals(P, fn, unstar_calls(fn, inline_foreign_setters(P, fn, inline_foreign_tail_calls(P, fn, inline_element_predicates(P, fn, copy_propagate(fn)))))))
+    res = inline_assigned_predicates(P, fn, inline_pure_predicate_locals(P, fn, unstar_calls(fn, inline_foreign_setters(P, fn, inline_foreign_tail_calls(P, fn, inline_element_predicates(P, fn, index_while_to_for(fn, search_scan_to_index_scan(P, fn, copy_propagate(fn)))))))))
     fn.__dict__['_sa_prepass'] = (fn.body, P, res)
     return res
 
